@@ -425,22 +425,24 @@ def check_mean_body(case, res):
     tol1 = [RTOL * (1 + g) for g in mag1]
     tol2 = [RTOL * (1 + g * g) for g in mag1]
     ex = exact_cells(case)
-    compare("mean:loc", imp["loc"], mod_loc, tol1, ex)
-    compare("mean:var", imp["var"], mod_var, tol2, [False] * n)
-    # --- property clauses on the implementation's outputs ---
+    # --- property clauses on the implementation's outputs first (an oracle failure outranks a correspondence break) ---
     # between the extremes of the members that count (unmasked, positive weight)
     w = member_weights(case)
     by_tol = {}
     for c in range(n):
-        if imp["loc"][c] is None:
+        if not isinstance(imp["loc"][c], Fraction):
             continue
         xs = [fr(case["vals"][i][c]) for i in range(case["n"]) if not masked_at(case, i, c) and w[i] > 0]
-        by_tol.setdefault(tol1[c], []).append((c, xs, imp["loc"][c]))
+        if xs:
+            by_tol.setdefault(tol1[c], []).append((c, xs, imp["loc"][c]))
     for t, lst in by_tol.items():
         for ok, (c, xs, v) in zip(m.call(F_BETWEEN, [qp(t), [[[qp(x) for x in xs], qp(v)] for _, xs, v in lst]]), lst):
             if not ok:
                 raise Fail("oracle", "mean:between_extremes", dict(cell=c, mean=float(v), members=[float(x) for x in xs]))
     metamorphic(case, imp, impl_mean, dict(loc=tol1, var=tol2), m, "mean")
+    # --- correspondence with the model ---
+    compare("mean:loc", imp["loc"], mod_loc, tol1, ex)
+    compare("mean:var", imp["var"], mod_var, tol2, [False] * n)
 
 
 def metamorphic(case, imp, impl, tols, m, name):
@@ -553,9 +555,10 @@ def check_mn_body(case, res):
         f.extra = dict(f.extra, **extra)
 
     try:
-        compare("mn:loc", imp["loc"], mod["loc"], tol1, ex)
-        compare("mn:total_var", imp["total"], mod["total"], tol2, no)
-        compare("mn:ale_var", imp["ale"], mod["ale"], tol2, no)
+        for k in ("total", "ale", "epi"):
+            for c in range(n):
+                if imp[k][c] == NAN:
+                    raise Fail("oracle", "mn:%s_var:nan" % k, dict(cell=c, model=str(mod[k][c])))
         # --- the property clause: total variance = aleatoric + epistemic, decided by ok_variance_split ---
         by_tol = {}
         for c in range(n):
@@ -566,8 +569,12 @@ def check_mn_body(case, res):
             for ok, (c, a, b, e) in zip(m.call(F_VSPLIT, [qp(t), [[qp(a), qp(b), qp(e)] for _, a, b, e in lst]]), lst):
                 if not ok:
                     raise Fail("oracle", "mn:variance_split", dict(cell=c, total=float(a), aleatoric=float(b), epistemic=float(e), sum=float(b + e)))
-        compare("mn:epi_var", imp["epi"], mod["epi"], tol2, no)
         metamorphic(case, imp, impl_mn, dict(loc=tol1, total=tol2, ale=tol2, epi=tol2), m, "mn")
+        # --- correspondence with the model ---
+        compare("mn:loc", imp["loc"], mod["loc"], tol1, ex)
+        compare("mn:total_var", imp["total"], mod["total"], tol2, no)
+        compare("mn:ale_var", imp["ale"], mod["ale"], tol2, no)
+        compare("mn:epi_var", imp["epi"], mod["epi"], tol2, no)
     except Fail as f:
         classify(f)
         raise
@@ -628,6 +635,37 @@ def check_cat_body(case, res):
     m = model()
     n, K = ncells(case["shape"]), case["K"]
     imp = impl_cat(case)
+    ex = exact_cells(case)
+    exK = [e for e in ex for _ in range(K)]
+    tol = [RTOL * 2] * n
+    tolK = [RTOL * 2] * (n * K)
+    tolE = [RTOL * 10] * n
+    stats = ("confidence_total", "confidence_ale", "confidence_epi", "entropy_total", "entropy_ale", "entropy_epi")
+    for k in stats + ("loc",):
+        for c, v in enumerate(imp[k]):
+            if v == NAN:
+                raise Fail("oracle", "cat:%s:nan" % k, dict(cell=c))
+    # --- property clauses on the implementation's outputs (when the rows of every member are distributions) ---
+    if all(row_is_distribution(case["vals"][i][c]) for i in range(case["n"]) for c in range(n)):
+        live = [c for c in range(n) if all(imp[k][c] is not None for k in stats) and all(x is not None for x in imp["loc"][c * K:(c + 1) * K])]
+        t2 = qp(RTOL * 2)
+        oks = m.call(F_DISTR, [t2, K, [[qp(x) for x in imp["loc"][c * K:(c + 1) * K]] for c in live]])
+        for ok, c in zip(oks, live):
+            if not ok:
+                raise Fail("oracle", "cat:probs_distribution", dict(row=c, loc=[float(x) for x in imp["loc"][c * K:(c + 1) * K]]))
+        oks = m.call(F_CONFR, [t2, K, [qp(imp["confidence_total"][c]) for c in live]])
+        for ok, c in zip(oks, live):
+            if not ok:
+                raise Fail("oracle", "cat:confidence_range", dict(row=c, uncertainty=float(imp["confidence_total"][c])))
+        for meth, strict in (("confidence", True), ("entropy", False)):
+            items = [[qp(imp[meth + "_total"][c]), qp(imp[meth + "_ale"][c]), qp(imp[meth + "_epi"][c])] for c in live]
+            oks = m.call(F_DECOMP, [qp(RTOL * (2 if strict else 10)), strict, items])
+            for ok, c in zip(oks, live):
+                if not ok:
+                    raise Fail("oracle", "cat:decomposition:" + meth, dict(row=c, total=float(imp[meth + "_total"][c]), aleatoric=float(imp[meth + "_ale"][c]), epistemic=float(imp[meth + "_epi"][c])))
+    tols = dict(loc=tolK, confidence_total=tol, confidence_ale=tol, confidence_epi=tol, entropy_total=tolE, entropy_ale=tolE, entropy_epi=tolE)
+    metamorphic(case, imp, impl_cat, tols, m, "cat")
+    # --- correspondence with the model ---
     rows, s = row_cells(case)
     W = enc_weights(case)
     out = m.call(F_CONF, [W, s, K, rows])
@@ -642,18 +680,15 @@ def check_cat_body(case, res):
             mod["confidence_total"].append(dec_q(r[1]) / s)
             mod["confidence_ale"].append(dec_q(r[2]) / s)
             mod["confidence_epi"].append(dec_q(r[3]) / s)
-    ex = exact_cells(case)
-    exK = [e for e in ex for _ in range(K)]
-    tol = [RTOL * 2] * n
-    tolK = [RTOL * 2] * (n * K)
     compare("cat:loc", imp["loc"], mod["loc"], tolK, exK)
     for k in ("confidence_total", "confidence_ale", "confidence_epi"):
         compare("cat:" + k, imp[k], mod[k], tol, ex)
-    # entropy: log values are numpy's (oracle)
+    # entropy: the log values are numpy's (oracle), for the members' probabilities and for the aggregated ones
     eps = float(np.finfo(np.float64).eps)
     lfl = []
-    mem_logs = [[None if masked_at(case, i, c) else [fr(x) for x in np.log(np.array(case["vals"][i][c], dtype=float) + eps)] for i in range(case["n"])] for c in range(n)]
-    ens_logs = [[fr(x) if np.isfinite(x) else Fraction(0) for x in np.log(np.maximum(imp["loc_array"][c], 0) + eps)] for c in range(n)]
+    with np.errstate(all="ignore"):
+        mem_logs = [[None if masked_at(case, i, c) else [fr(x) for x in np.log(np.array(case["vals"][i][c], dtype=float) + eps)] for i in range(case["n"])] for c in range(n)]
+        ens_logs = [[fr(x) if np.isfinite(x) else Fraction(0) for x in np.log(np.maximum(imp["loc_array"][c], 0) + eps)] for c in range(n)]
     for c in range(n):
         for l in mem_logs[c]:
             lfl += l or []
@@ -663,28 +698,7 @@ def check_cat_body(case, res):
     eout = m.call(F_ENT, [W, K, erows, [[int(x * t) for x in ens_logs[c]] for c in range(n)]])
     for j, k in enumerate(("entropy_total", "entropy_ale", "entropy_epi")):
         mod[k] = [None if not r else dec_q(r[j]) / (s * t) for r in eout]
-        compare("cat:" + k, imp[k], mod[k], [RTOL * 100] * n, [False] * n)
-    # --- property clauses on the implementation's outputs (rows of every member are distributions) ---
-    if all(row_is_distribution(case["vals"][i][c]) for i in range(case["n"]) for c in range(n)):
-        live = [c for c in range(n) if imp["confidence_total"][c] is not None]
-        t2 = qp(RTOL * 2)
-        oks = m.call(F_DISTR, [t2, K, [[qp(x) for x in imp["loc"][c * K:(c + 1) * K]] for c in live]])
-        for ok, c in zip(oks, live):
-            if not ok:
-                raise Fail("oracle", "cat:probs_distribution", dict(row=c, loc=[float(x) for x in imp["loc"][c * K:(c + 1) * K]]))
-        oks = m.call(F_CONFR, [t2, K, [qp(imp["confidence_total"][c]) for c in live]])
-        for ok, c in zip(oks, live):
-            if not ok:
-                raise Fail("oracle", "cat:confidence_range", dict(row=c, uncertainty=float(imp["confidence_total"][c])))
-        for meth, strict in (("confidence", True), ("entropy", False)):
-            items = [[qp(imp[meth + "_total"][c]), qp(imp[meth + "_ale"][c]), qp(imp[meth + "_epi"][c])] for c in live]
-            oks = m.call(F_DECOMP, [qp(RTOL * (2 if strict else 100)), strict, items])
-            for ok, c in zip(oks, live):
-                if not ok:
-                    raise Fail("oracle", "cat:decomposition:" + meth, dict(row=c, total=float(imp[meth + "_total"][c]), aleatoric=float(imp[meth + "_ale"][c]), epistemic=float(imp[meth + "_epi"][c])))
-    tols = dict(loc=tolK, confidence_total=tol, confidence_ale=tol, confidence_epi=tol,
-                entropy_total=[RTOL * 100] * n, entropy_ale=[RTOL * 100] * n, entropy_epi=[RTOL * 100] * n)
-    metamorphic(case, imp, impl_cat, tols, m, "cat")
+        compare("cat:" + k, imp[k], mod[k], tolE, [False] * n)
 
 
 check_cat = guarded(check_cat_body)
@@ -788,6 +802,7 @@ def check_mode_body(case, res):
         for ok, c in zip(oks, live):
             if not ok:
                 raise Fail("oracle", "mode:weighted_vote", dict(row=c, mode=int(imp["mode"][c]), uncertainty=float(imp["unc"][c]), counts=[float(x) for x in mod[c][1]]))
+        metamorphic(case, imp, impl_mode, dict(unc=tol), m, "mode")
         # --- correspondence ---
         compare("mode:unc", imp["unc"], [None if r is None else r[2] for r in mod], tol, ex)
         for c in live:
@@ -796,11 +811,6 @@ def check_mode_body(case, res):
                 raise Fail("corr", "mode:loc", dict(row=c, impl=int(imp["mode"][c]), model=mod[c][0]))
             if ex[c] and int(imp["mode"][c]) != mod[c][0]:
                 raise Fail("corr", "mode:loc_first_argmax", dict(row=c, impl=int(imp["mode"][c]), model=mod[c][0]))
-    except Fail as f:
-        classify(f)
-        raise
-    try:
-        metamorphic(case, imp, impl_mode, dict(unc=tol), m, "mode")
     except Fail as f:
         classify(f)
         raise
@@ -1027,9 +1037,9 @@ def streams(tier):
     th = tier == "thorough"
     q = 20 if th else 1
     return [
-        Stream("mean", gen_scalar("mean", 1000 * q), check_mean, shrink, timeout=60),
-        Stream("mixed_normal", gen_scalar("mn", 1000 * q), check_mn, shrink, timeout=60),
-        Stream("mixed_categorical", gen_rows("cat", 1000 * q), check_cat, shrink, timeout=60),
-        Stream("mode", gen_rows("mode", 1000 * q), check_mode, shrink, timeout=60),
-        Stream("malformed", gen_malformed(60 if th else 24), check_malformed, None, timeout=30),
+        Stream("mean", gen_scalar("mean", 1000 * q), check_mean, shrink, timeout=600),
+        Stream("mixed_normal", gen_scalar("mn", 1000 * q), check_mn, shrink, timeout=600),
+        Stream("mixed_categorical", gen_rows("cat", 1000 * q), check_cat, shrink, timeout=600),
+        Stream("mode", gen_rows("mode", 1000 * q), check_mode, shrink, timeout=600),
+        Stream("malformed", gen_malformed(60 if th else 24), check_malformed, None, timeout=600),
     ]
